@@ -465,15 +465,18 @@ def api_inventory():
                 t = t[:i] if i > 0 else t
                 for m in re.finditer(r"pub fn (\w+)", t):
                     names.setdefault(m.group(1), set()).add(f)
+                for m in re.finditer(r"pub (?:struct|enum) (\w+)", t):
+                    names.setdefault("type " + m.group(1), set()).add(f)
         h = "".join(open(os.path.join(HARN, "src", f)).read() for f in os.listdir(os.path.join(HARN, "src")) if f.endswith(".rs"))
-        return sorted("%s (%s)" % (n, ",".join(sorted(fs))) for n, fs in names.items() if not re.search(r"\b%s\b" % re.escape(n), h))
+        return sorted("%s (%s)" % (n, ",".join(sorted(fs))) for n, fs in names.items()
+                      if not re.search(r"\b%s\b" % re.escape(n.split(" ")[-1]), h))
     except OSError:
         return []
 
 
 def write_evidence(pid, tier, seed, wall, cov, violations, assumptions):
     os.makedirs(EVID, exist_ok=True)
-    cov["public_fns_never_named_by_the_harness"] = api_inventory()
+    cov["public_items_never_named_by_the_harness"] = api_inventory()
     ev = dict(property_id=pid, tier=tier, seed=seed, level="proof", coverage=cov,
               assumptions=assumptions, wall_s=round(wall, 2), violations=violations)
     tmp = os.path.join(EVID, pid + ".json.tmp")
